@@ -70,7 +70,8 @@ def simulate_with_lost_probe(moduli, style, openssh, lost):
 def make_cases_lostprobe():
     """One connection of the group-exchange phase fails (any way a connection can fail); the probing must go on."""
     fl = [['connect', 'close'], ['connect', 'stall'], ['connect', 'refuse'], ['connect', 'timeout'], ['banner', 'close'], ['kexinit', 'close'], ['kexinit', 'stall'], ['gex_group', 'close'], ['gex_group', 'stall'], ['gex_group', 'reset'],
-          ['gex_group', ['reframe_trunc', 69]], ['gex_group', ['reframe_trunc', 133]], ['gex_group', ['set_u32', 1, 4096]], ['gex_group', ['disconnect', 12]]]
+          ['gex_group', ['reframe_trunc', 69]], ['gex_group', ['reframe_trunc', 133]], ['gex_group', ['set_u32', 1, 4096]], ['gex_group', ['disconnect', 12]],
+          ['gex_group', ['raw', DEBUG_PKT, 'close']], ['gex_group', ['raw', DEBUG_PKT, 'stall']]]
     for moduli in ([768, 2048], [1024, 3072], [1536, 4096], [768, 1024, 4096], [2048, 3072], [512, 8192], [1024], [3072]):
         for style in ('prefup', 'roundup', 'strict', 'openssh'):
             for what, f in fl:
@@ -126,6 +127,7 @@ def make_cases_extension():
                 yield {'moduli': list(combo), 'style': style, 'algs': 'sha256', 'banner': 'dropbear', 'family': 'extension'}
 
 
+DEBUG_PKT = fakenet.wire.pkt(b'\x04\x01' + fakenet.wire.sstr(b'no matching group') + fakenet.wire.sstr(b'en')).decode('latin-1')
 FAULTS = [
     ['gex_group', 'close'], ['gex_group', 'stall'], ['gex_reply', 'close'], ['gex_reply', 'stall'],
     ['gex_group', ['type', 33]], ['gex_group', ['type', 20]], ['gex_group', ['payload', '\x1f\x00\x00']],
@@ -135,6 +137,8 @@ FAULTS = [
     # a group message that ends inside its modulus / announces more modulus bytes than it carries / has no generator
     ['gex_group', ['reframe_trunc', 5]], ['gex_group', ['reframe_trunc', 6]], ['gex_group', ['reframe_trunc', 37]], ['gex_group', ['reframe_trunc', 69]], ['gex_group', ['reframe_trunc', 133]], ['gex_group', ['reframe_trunc', 261]],
     ['gex_group', ['set_u32', 1, 4096]], ['gex_group', ['set_u32', 1, 0x7fffffff]], ['gex_group', ['set_u32', 1, 1]], ['gex_group', ['disconnect', 12]], ['kexinit', ['disconnect', 2]],
+    # a refusal announced by a debug message: the message, then the connection is closed / left silent
+    ['gex_group', ['raw', DEBUG_PKT, 'close']], ['gex_group', ['raw', DEBUG_PKT, 'stall']], ['gex_group', ['raw', DEBUG_PKT * 3, 'close']], ['gex_reply', ['raw', DEBUG_PKT, 'close']],
 ]
 
 
